@@ -16,3 +16,8 @@ def piece_ok(bounds, piece, c):
 def increasing(xs):
     """Strictly increasing, in the transitive (global) form so that no induction is needed by users."""
     return all(xs[i] < xs[j] for i in range(len(xs)) for j in range(i + 1, len(xs)))
+
+
+def psum(xs, k):
+    """Sum of the first k elements (built in on the symbolic side: uninterpreted + recursive definition)."""
+    return sum(xs[:k])
